@@ -141,7 +141,11 @@ fn section_header_with_name<'sc>(
             // This can't be a match.
             continue;
         }
-        let n = module_memory.read(strtab_section_header.sh_offset + sh_name, name.len() as u64)?;
+        let Some(name_offset) = strtab_section_header.sh_offset.checked_add(sh_name) else {
+            // The string table offset is bogus: this can't be a match.
+            continue;
+        };
+        let n = module_memory.read(name_offset, name.len() as u64)?;
         if name == &*n {
             return Ok(Some(header));
         }
@@ -424,9 +428,17 @@ impl<'buf> ModuleReader<'buf> {
         name_offset: u64,
     ) -> Result<String, Error> {
         assert!(name_offset < strtab_size);
+        let offset = strtab_offset
+            .checked_add(name_offset)
+            .ok_or(Error::ReadModuleMemory {
+                offset: strtab_offset,
+                length: name_offset,
+                start_address: None,
+                error: nix::Error::EOVERFLOW,
+            })?;
         let name = self
             .module_memory
-            .read(strtab_offset + name_offset, strtab_size - name_offset)?;
+            .read(offset, strtab_size - name_offset)?;
         CStr::from_bytes_until_nul(&name)
             .map(|s| s.to_string_lossy().into_owned())
             .map_err(|_| Error::StrTabNoNulByte)
